@@ -116,6 +116,18 @@ def expected_report(requests, answers, is_openssh):
     return (min(pos) if pos else None), False
 
 
+def full_sequence_expectation(f, is_openssh):
+    """The statement for a monotone moduli policy, independent of what the tool actually probed: the smallest modulus handed out over
+    the whole fixed probe sequence; for OpenSSH servers ending at 2048, the answer to the follow-up (2048, 3072, 4096) probe."""
+    answers = [f(512, 1024, 1536)] + [f(b, b, b) for b in (512, 768, 1024, 1536, 2048, 3072, 4096)]
+    pos = [a for a in answers if isinstance(a, int) and a > 0]
+    m = min(pos) if pos else None
+    if m == 2048 and is_openssh:
+        a = f(2048, 3072, 4096)
+        return (a if isinstance(a, int) and a > 0 else None), bool(isinstance(a, int) and a > 0 and a != 2048)
+    return m, False
+
+
 def run(ctx):
     from ssh_audit.ssh2_kexdb import SSH2_KexDB
     r = ctx.rng
@@ -183,7 +195,8 @@ def run(ctx):
                                      'expected': 'a size the server actually handed out, or none', 'how': 'harness/props/C12.py run_real(): GEXTest.run over fakenet'})
                 if got != want:
                     nonmono.append((seg_a, got))
-            elif got != want:
+            elif got != want or got != full_sequence_expectation(STYLES[desc['style']](desc['M']), desc['openssh'])[0]:
+                want = full_sequence_expectation(STYLES[desc['style']](desc['M']), desc['openssh'])[0]
                 failures.append({'sig': {'kind': 'wrong_modulus_reported'}, 'input': desc, 'observed': {'reported': got, 'requests': seg_q, 'answers': seg_a},
                                  'expected': {'reported': want}, 'how': 'harness/props/C12.py run_real(): GEXTest.run over fakenet'})
             ent = res['entries'][a]
